@@ -71,6 +71,14 @@ Definition cancel_ptr_refresh (s : sched) (alias : text) : sched :=
 
 Definition find_id (h : list squery) (id : Z) : option squery := find (fun q => sq_id q =? id) h.
 
+(* the entry keeps its place and time but takes over TTL and expiry of the record now in the cache (repair: a refresh inside the no-churn
+   window used to leave the old record's TTL and expiry on the entry, so the rescue steps of the new record were mis-spaced) *)
+Definition retime_id (h : list squery) (id ttl expire : Z) : list squery :=
+  map (fun q => if sq_id q =? id
+                then {| sq_id := sq_id q; sq_alias := sq_alias q; sq_name := sq_name q; sq_ttl := ttl;
+                        sq_cancelled := sq_cancelled q; sq_expire := expire; sq_when := sq_when q |}
+                else q) h.
+
 (* reschedule_ptr_first_refresh(pointer): created/ttl of the (refreshed) cached pointer *)
 Definition reschedule_ptr_first_refresh (s : sched) (alias name : text) (created ttl : Z) : sched :=
   let refresh := created + C_EXPIRE_REFRESH_TIME_PERCENT * ttl * 10 in
@@ -79,7 +87,8 @@ Definition reschedule_ptr_first_refresh (s : sched) (alias name : text) (created
   | Some id =>
       match find_id (sc_heap s) id with
       | Some cur =>
-          if (- sc_delay s <=? refresh - sq_when cur) && (refresh - sq_when cur <=? sc_delay s) then s
+          if (- sc_delay s <=? refresh - sq_when cur) && (refresh - sq_when cur <=? sc_delay s)
+          then with_heap_alias_fresh s (retime_id (sc_heap s) id ttl expire) (sc_by_alias s) (sc_fresh s)
           else push (with_heap_alias_fresh s (cancel_id (sc_heap s) id) (d_del text_eqb (sc_by_alias s) alias) (sc_fresh s))
                     alias name ttl expire refresh
       | None => push s alias name ttl expire refresh
